@@ -386,7 +386,7 @@ ERROR_CATS = [
     ("not forwarded", "budget"),
     ("nfev", "count"),
     ("does not contain its seed", "structure"),
-    ("must start from its seed", "structure"),
+    ("must start from its seed", "seed"),
     ("below the last level", "structure"),
     ("number of created demes", "sprout"),
     ("sprout mechanism cannot be performed", "sprout"),
@@ -396,8 +396,8 @@ ERROR_CATS = [
 # which kinds of disagreement bear on which property
 RELEVANT = {
     "C01": {"box"},
-    "C02": {"chain", "hist"},
-    "C03": {"count", "budget", "evals", "counter", "invocations"},
+    "C02": {"chain", "hist", "seed"},
+    "C03": {"count", "budget", "evals", "counter", "invocations", "seed"},
     "C04": {"best", "observed"},
     "C05": {"control", "metaepoch"},
     "C06": {"schedule", "active", "me", "gens", "control"},
